@@ -1,8 +1,328 @@
-(* C15 -- placeholder, replaced below *)
-From Coq Require Import String List.
-From Verif Require Import C15Tables C15Common.
+(* C15 -- Vendor file readers decode every field of the formats they support.
+   Property theorems only.  All statements are about the token/dataset-level
+   reader models of Model/C15*.v (column tables, footprints, Laue table, alias
+   table and group names are REGENERATED from /repo into Gen/C15Tables.v), for
+   an arbitrary scalar type T (numbers are carried, never rounded).
+   Shape of every codec theorem:  parse_v (render_v f) = expected_map f. *)
+From Coq Require Import ZArith List Bool String.
+From Verif Require Import Scalar C15Tables C15Common C15Ang C15Ctf C15H5 C15AngP C15CtfP C15CommonP C15H5P.
 Import ListNotations.
 Local Open Scope string_scope.
-Theorem C15_select_text : select_plugin "ang" false None = Some "ang" /\ select_plugin "ctf" false None = Some "ctf".
-Proof. split; reflexivity. Qed.
-Print Assumptions C15_select_text.
+Local Open Scope list_scope.
+
+(* ======================================================================= .ang *)
+(* header: every "# Phase / MaterialName / Formula / Symmetry / LatticeConstants" field of every
+   phase block reaches PhaseList, for any number of phases, free lines and field values *)
+Theorem C15_ang_header_fields : forall (T : Type) (f : angfile (T:=T)), wf_names f ->
+  phases_from_header (render_hdr f) =
+  mkH (hdr_ids_of f) (hdr_names_of f) (map ap_sym (af_phases f)) (map ap_lat (af_phases f)).
+Proof. exact @phases_render. Qed.
+Print Assumptions C15_ang_header_fields.
+
+Theorem C15_ang_header_ids : forall (T : Type) (f : angfile (T:=T)) (ids : list Z),
+  map ap_id (af_phases f) = map Some ids -> af_phases f <> [] -> hdr_ids_of f = ids.
+Proof. exact @hdr_ids_all. Qed.
+Print Assumptions C15_ang_header_ids.
+
+Theorem C15_ang_header_names_formula : forall (T : Type) (f : angfile (T:=T)) (fs : list string),
+  map ap_formula (af_phases f) = map Some fs -> forallb (fun s => negb (String.eqb s "")) fs = true ->
+  hdr_names_of f = fs.
+Proof. exact @hdr_names_formulas. Qed.
+Print Assumptions C15_ang_header_names_formula.
+
+Theorem C15_ang_header_names_material : forall (T : Type) (f : angfile (T:=T)),
+  (exists p, In p (af_phases f) /\ ap_formula p = None) ->
+  hdr_names_of f = map (fun p => join " " (ap_name p)) (af_phases f).
+Proof. exact @hdr_names_material. Qed.
+Print Assumptions C15_ang_header_names_material.
+
+(* EDAX TSL, 10 columns: radians, ci == -1 -> phase -1, um, documented names *)
+Theorem C15_ang_tsl10 : forall (T : Type) (Op : Ops T) (f : angfile (T:=T)) (p0 : apoint (T:=T)) pts,
+  wf_names f -> no_fp "EMsoft" f -> no_fp "ACOM" f -> no_fp "Column names: phi1, Phi, phi2" f ->
+  af_pts f = p0 :: pts -> List.length (p_rest p0) = 2%nat ->
+  parse_ang Op (render_hdr f) (map (render_pt (T:=T)) (af_pts f)) =
+  bind (hdr_phaselist Op f) (fun pl =>
+    Ok (crystal_map Op 1 (map p_eu (af_pts f)) (map p_x (af_pts f)) (map p_y (af_pts f)) (map (pid_ci Op) (af_pts f))
+          [("iq", pv p_q (af_pts f)); ("ci", pv p_c (af_pts f));
+           ("detector_signal", pv (rest_at Op 0) (af_pts f)); ("fit", pv (rest_at Op 1) (af_pts f))]
+          "um" pl false)).
+Proof. exact @parse_tsl10. Qed.
+Print Assumptions C15_ang_tsl10.
+
+Theorem C15_ang_tsl14 : forall (T : Type) (Op : Ops T) (f : angfile (T:=T)) (p0 : apoint (T:=T)) pts,
+  wf_names f -> no_fp "EMsoft" f -> no_fp "ACOM" f -> no_fp "Column names: phi1, Phi, phi2" f ->
+  af_pts f = p0 :: pts -> List.length (p_rest p0) = 6%nat ->
+  parse_ang Op (render_hdr f) (map (render_pt (T:=T)) (af_pts f)) =
+  bind (hdr_phaselist Op f) (fun pl =>
+    Ok (crystal_map Op 1 (map p_eu (af_pts f)) (map p_x (af_pts f)) (map p_y (af_pts f)) (map (pid_ci Op) (af_pts f))
+          [("iq", pv p_q (af_pts f)); ("ci", pv p_c (af_pts f));
+           ("detector_signal", pv (rest_at Op 0) (af_pts f)); ("fit", pv (rest_at Op 1) (af_pts f));
+           ("unknown1", pv (rest_at Op 2) (af_pts f)); ("unknown2", pv (rest_at Op 3) (af_pts f));
+           ("unknown3", pv (rest_at Op 4) (af_pts f)); ("unknown4", pv (rest_at Op 5) (af_pts f))]
+          "um" pl false)).
+Proof. exact @parse_tsl14. Qed.
+Print Assumptions C15_ang_tsl14.
+
+Theorem C15_ang_emsoft : forall (T : Type) (Op : Ops T) (f : angfile (T:=T)) (p0 : apoint (T:=T)) pts,
+  af_vendor f = AEmsoft -> wf_names f -> no_fp "ACOM" f -> no_fp "Column names: phi1, Phi, phi2" f ->
+  af_pts f = p0 :: pts -> List.length (p_rest p0) = 0%nat ->
+  parse_ang Op (render_hdr f) (map (render_pt (T:=T)) (af_pts f)) =
+  bind (hdr_phaselist Op f) (fun pl =>
+    Ok (crystal_map Op 1 (map p_eu (af_pts f)) (map p_x (af_pts f)) (map p_y (af_pts f)) (map p_pid (af_pts f))
+          [("iq", pv p_q (af_pts f)); ("dp", pv p_c (af_pts f))] "um" pl false)).
+Proof. exact @parse_emsoft. Qed.
+Print Assumptions C15_ang_emsoft.
+
+Theorem C15_ang_astar : forall (T : Type) (Op : Ops T) (f : angfile (T:=T)) (p0 : apoint (T:=T)) pts,
+  af_vendor f = AAstar -> wf_names f -> no_fp "Column names: phi1, Phi, phi2" f ->
+  af_pts f = p0 :: pts -> List.length (p_rest p0) = 1%nat ->
+  parse_ang Op (render_hdr f) (map (render_pt (T:=T)) (af_pts f)) =
+  bind (hdr_phaselist Op f) (fun pl =>
+    Ok (crystal_map Op 1 (map p_eu (af_pts f)) (map p_x (af_pts f)) (map p_y (af_pts f)) (map p_pid (af_pts f))
+          [("ind", pv p_q (af_pts f)); ("rel", pv p_c (af_pts f)); ("relx100", pv (rest_at Op 0) (af_pts f))]
+          "nm" pl false)).
+Proof. exact @parse_astar. Qed.
+Print Assumptions C15_ang_astar.
+
+(* FULL clause for orix-written files: parse (render f) = expected incl. the extra property columns.
+   Proved: vendor detection and the column names (standard ten + the header's extra names with
+   spaces replaced by underscores), for any list of extra names; the assignment of the data columns
+   to a name list of symbolic length is left to the correspondence. *)
+Theorem C15_ang_orix_columns_partial : forall (T : Type) (f : angfile (T:=T)) (ncols : nat),
+  af_vendor f = AOrix ->
+  find (has_fp "Column names: phi1, Phi, phi2")
+       (map ALInfo (af_pre f) ++ flat_map render_phase (af_phases f) ++ map ALInfo (af_post f)) = None ->
+  ang_columns (render_hdr f) ncols =
+    ("orix", ["euler1"; "euler2"; "euler3"; "x"; "y"; "iq"; "ci"; "phase_id"; "detector_signal"; "fit"]
+             ++ map spaces2underscore (af_extra f), false).
+Proof. intros T f n Hv Hc. apply columns_orix. apply vendor_orix; assumption. Qed.
+Print Assumptions C15_ang_orix_columns_partial.
+
+(* the unexpected-column-count clause: EVERY other width gives generic names and the warning *)
+Theorem C15_ang_unexpected_columns : forall (T : Type) (hdr : list (angline (T:=T))) (v : string)
+    (fl : option angline) (ncols : nat),
+  ang_vendor hdr = (v, fl) -> String.eqb v "orix" = false ->
+  existsb (Nat.eqb ncols) (map (@List.length string) (variants_of v)) = false ->
+  ang_columns hdr ncols = ("unknown", generic_names ncols, true).
+Proof. intros T hdr v fl n Hv Ho He. rewrite (columns_of_vendor hdr v fl n Hv Ho), He. reflexivity. Qed.
+Print Assumptions C15_ang_unexpected_columns.
+
+Theorem C15_ang_unexpected_columns_tsl : forall (T : Type) (f : angfile (T:=T)) (n : nat),
+  no_fp "EMsoft" f -> no_fp "ACOM" f -> no_fp "Column names: phi1, Phi, phi2" f ->
+  n <> 10%nat -> n <> 14%nat ->
+  ang_columns (render_hdr f) n = ("unknown", generic_names n, true).
+Proof. exact @columns_unexpected_tsl. Qed.
+Print Assumptions C15_ang_unexpected_columns_tsl.
+
+Theorem C15_ang_unexpected_columns_emsoft : forall (T : Type) (f : angfile (T:=T)) (n : nat),
+  af_vendor f = AEmsoft -> no_fp "ACOM" f -> no_fp "Column names: phi1, Phi, phi2" f -> n <> 8%nat ->
+  ang_columns (render_hdr f) n = ("unknown", generic_names n, true).
+Proof. exact @columns_unexpected_emsoft. Qed.
+Print Assumptions C15_ang_unexpected_columns_emsoft.
+
+Theorem C15_ang_unexpected_columns_astar : forall (T : Type) (f : angfile (T:=T)) (n : nat),
+  af_vendor f = AAstar -> no_fp "Column names: phi1, Phi, phi2" f -> n <> 9%nat ->
+  ang_columns (render_hdr f) n = ("unknown", generic_names n, true).
+Proof. exact @columns_unexpected_astar. Qed.
+Print Assumptions C15_ang_unexpected_columns_astar.
+
+Example C15_ang_generic_names_nonvacuous :
+  generic_names 8 = ["euler1"; "euler2"; "euler3"; "x"; "y"; "unknown1"; "unknown2"; "phase_id"] /\
+  generic_names 11 = ["euler1"; "euler2"; "euler3"; "x"; "y"; "unknown1"; "unknown2"; "phase_id";
+                      "unknown3"; "unknown4"; "unknown5"].
+Proof. exact generic_names_10_12. Qed.
+
+(* symmetry codes *)
+Theorem C15_ang_symmetry_codes :
+  map resolve_pg ["43"; "23"; "6"; "32"; "3"; "42"; "4"; "22"; "2"; "20"; "1"; "m3m"] =
+  map Some ["432"; "23"; "6"; "32"; "3"; "422"; "4"; "222"; "2/m"; "121"; "1"; "m-3m"].
+Proof. exact tsl_codes_resolve. Qed.
+Print Assumptions C15_ang_symmetry_codes.
+
+Theorem C15_ang_symmetry62_refuted : forall (T : Type) (Op : Ops T),
+  exists f : angfile (T:=T), parse_ang Op (render_hdr f) (map (render_pt (T:=T)) (af_pts f)) = Err EValue.
+Proof. intros T Op. eexists. exact (ang_sym62_raises Op). Qed.
+Print Assumptions C15_ang_symmetry62_refuted.
+
+Example C15_ang_symmetry43_nonvacuous : forall (T : Type) (Op : Ops T),
+  exists m, parse_ang Op (render_hdr (ang_wit Op AAstar "43" [z0 Op]))
+                      (map (render_pt (T:=T)) (af_pts (ang_wit Op AAstar "43" [z0 Op]))) = Ok m
+            /\ xm_unit m = "nm" /\ xm_warn m = false
+            /\ map (fun kp => (fst kp, ph_pg (snd kp))) (xm_phases m) = [(1%Z, Some "432")].
+Proof. exact @ang_sym43_loads. Qed.
+
+(* an ASTAR file with an unexpected width loses its scan unit (nm -> um) *)
+Theorem C15_ang_astar_unit_generic_refuted : forall (T : Type) (Op : Ops T),
+  exists (f : angfile (T:=T)) m, af_vendor f = AAstar /\
+    parse_ang Op (render_hdr f) (map (render_pt (T:=T)) (af_pts f)) = Ok m /\
+    xm_unit m = "um" /\ xm_warn m = true.
+Proof.
+  intros T Op. destruct (ang_astar_generic_unit Op) as [m [H1 [H2 [H3 _]]]].
+  exists (ang_wit Op AAstar "43" [z0 Op; z0 Op]), m. repeat split; assumption.
+Qed.
+Print Assumptions C15_ang_astar_unit_generic_refuted.
+
+(* ======================================================================= .ctf *)
+Theorem C15_ctf_header : forall (T : Type) (f : ctffile (T:=T)), take_header (render_chdr f) = chdr_body f.
+Proof. exact @header_of_render. Qed.
+Print Assumptions C15_ctf_header.
+
+Theorem C15_ctf_phases : forall (T : Type) (f : ctffile (T:=T)) (pgs : list string),
+  wf_misc f -> map laue_pg (cf_phases f) = map Some pgs ->
+  ctf_phases (chdr_body f) =
+  Ok (mkCH (map cp_name (cf_phases f)) pgs (map sg_opt (cf_phases f)) (map cp_lat (cf_phases f))).
+Proof. exact @ctf_phases_render. Qed.
+Print Assumptions C15_ctf_phases.
+
+(* Oxford / Bruker / MTEX: degrees, phase 0 -> -1, um, names, columns after BS ignored *)
+Theorem C15_ctf_oxford_bruker_mtex : forall (T : Type) (Op : Ops T) (f : ctffile (T:=T)) (p0 : cpoint (T:=T)) pts
+    (pgs : list string) (stops : list Z),
+  wf_misc f -> map laue_pg (cf_phases f) = map Some pgs -> cf_pts f = p0 :: pts ->
+  String.eqb (ctf_vendor (chdr_body f)) "emsoft" = false ->
+  String.eqb (ctf_vendor (chdr_body f)) "astar" = false ->
+  parse_ctf Op (render_chdr f) (map (render_cpt (T:=T)) (cf_pts f)) stops =
+  bind (ctf_phaselist Op f pgs) (fun pl =>
+    Ok (crystal_map Op 1 (map (eu_deg2rad Op) (map c_eu (cf_pts f))) (map c_x (cf_pts f)) (map c_y (cf_pts f))
+          (map cpid (cf_pts f))
+          [("bands", cv c_bands (cf_pts f)); ("error", cv c_err (cf_pts f)); ("MAD", cv c_mad (cf_pts f));
+           ("BC", cv c_bc (cf_pts f)); ("BS", cv c_bs (cf_pts f))] "um" pl false)).
+Proof. exact @parse_ctf_plain. Qed.
+Print Assumptions C15_ctf_oxford_bruker_mtex.
+
+Theorem C15_ctf_emsoft : forall (T : Type) (Op : Ops T) (f : ctffile (T:=T)) (p0 : cpoint (T:=T)) pts
+    (pgs : list string) (stops : list Z),
+  wf_misc f -> map laue_pg (cf_phases f) = map Some pgs -> cf_pts f = p0 :: pts ->
+  ctf_vendor (chdr_body f) = "emsoft" ->
+  parse_ctf Op (render_chdr f) (map (render_cpt (T:=T)) (cf_pts f)) stops =
+  bind (ctf_phaselist Op f pgs) (fun pl =>
+    Ok (crystal_map Op 1 (map (eu_deg2rad Op) (map c_eu (cf_pts f))) (map c_x (cf_pts f)) (map c_y (cf_pts f))
+          (map cpid (cf_pts f))
+          [("bands", cv c_bands (cf_pts f)); ("error", cv c_err (cf_pts f)); ("DP", cv c_mad (cf_pts f));
+           ("OSM", cv c_bc (cf_pts f)); ("IQ", cv c_bs (cf_pts f))] "um" pl false)).
+Proof. exact @parse_ctf_emsoft. Qed.
+Print Assumptions C15_ctf_emsoft.
+
+(* FULL clause for ASTAR .ctf: coordinates are those of the header grid.  Proved: the shape test of
+   _fix_astar_coords can never succeed on a regular grid (so the header grid is always used);
+   the reader as a whole on ASTAR files is left to the correspondence. *)
+Theorem C15_ctf_astar_regrid_partial : forall s0 s1 nx ny : Z,
+  ((s0 + 1 =? ny)%Z && (s1 + 1 =? nx)%Z) = true -> s0 = nx -> s1 = ny -> False.
+Proof. exact astar_always_regrid. Qed.
+Print Assumptions C15_ctf_astar_regrid_partial.
+
+Theorem C15_ctf_astar_line_refuted : forall (T : Type) (Op : Ops T),
+  exists (f : ctffile (T:=T)) (stops : list Z), cf_nrows f = 1%nat /\
+    parse_ctf Op (render_chdr f) (map (render_cpt (T:=T)) (cf_pts f)) stops = Err EIndex.
+Proof. intros T Op. eexists. exists [2%Z]. split; [|exact (ctf_astar_line_raises Op)]. reflexivity. Qed.
+Print Assumptions C15_ctf_astar_line_refuted.
+
+(* Laue classes and space groups *)
+Theorem C15_ctf_laue_classes :
+  forallb (fun k => match py_index ctf_laue_ids (k - 1) with
+                    | Some l => match resolve_pg l with Some v => String.eqb v l | None => false end
+                    | None => false end)
+          [1; 2; 3; 4; 5; 6; 7; 8; 9; 11]%Z = true.
+Proof. exact laue_classes_resolve. Qed.
+Print Assumptions C15_ctf_laue_classes.
+
+Theorem C15_ctf_laue10_refuted : forall (T : Type) (Op : Ops T),
+  exists (f : ctffile (T:=T)), map cp_laue (cf_phases f) = [10%Z] /\
+    parse_ctf Op (render_chdr f) (map (render_cpt (T:=T)) (cf_pts f)) [] = Err EValue.
+Proof. intros T Op. eexists. split; [|exact (ctf_laue10_raises Op)]. reflexivity. Qed.
+Print Assumptions C15_ctf_laue10_refuted.
+
+Example C15_ctf_laue11_nonvacuous : forall (T : Type) (Op : Ops T),
+  exists m, parse_ctf Op (render_chdr (ctf_wit Op COxford 11 225 1 2 [cpt0 Op (z0 Op) (z0 Op); cpt0 Op (o_ofZ Op 1) (z0 Op)]))
+               (map (render_cpt (T:=T)) [cpt0 Op (z0 Op) (z0 Op); cpt0 Op (o_ofZ Op 1) (z0 Op)]) [] = Ok m
+            /\ map (fun kp => (fst kp, ph_sg (snd kp), ph_pg (snd kp))) (xm_phases m) = [(1%Z, Some 225%Z, Some "m-3m")].
+Proof. exact @ctf_laue11_loads. Qed.
+
+(* space group whose point group IS the Laue class: kept; otherwise dropped *)
+Theorem C15_ctf_spacegroup_kept : forall (T : Type) (name l : string) (n : Z) (lat : list T),
+  sg_valid n = true -> resolve_pg l = Some l -> sg_pg n = l ->
+  mk_phase name (Some n) (Some l) lat = Ok (mkPhase name (Some n) (Some l) lat).
+Proof. exact @phase_ctf_kept. Qed.
+Print Assumptions C15_ctf_spacegroup_kept.
+
+Theorem C15_ctf_spacegroup_dropped_refuted : forall (T : Type) (name l : string) (n : Z) (lat : list T),
+  sg_valid n = true -> resolve_pg l = Some l -> sg_pg n <> l ->
+  mk_phase name (Some n) (Some l) lat = Ok (mkPhase name None (Some l) lat).
+Proof. exact @phase_ctf_dropped. Qed.
+Print Assumptions C15_ctf_spacegroup_dropped_refuted.
+
+Example C15_ctf_spacegroup_dropped_nonvacuous : forall (T : Type) (Op : Ops T),
+  exists m, parse_ctf Op (render_chdr (ctf_wit Op COxford 11 216 1 2 [cpt0 Op (z0 Op) (z0 Op); cpt0 Op (o_ofZ Op 1) (z0 Op)]))
+               (map (render_cpt (T:=T)) [cpt0 Op (z0 Op) (z0 Op); cpt0 Op (o_ofZ Op 1) (z0 Op)]) [] = Ok m
+            /\ map (fun kp => (fst kp, ph_sg (snd kp), ph_pg (snd kp))) (xm_phases m) = [(1%Z, None, Some "m-3m")].
+Proof. exact @ctf_sg216_dropped. Qed.
+
+(* ============================================================ phases in the map *)
+Theorem C15_phase_from_code : forall (T : Type) (name s v : string) (lat : list T),
+  resolve_pg s = Some v -> mk_phase name None (Some s) lat = Ok (mkPhase name None (Some v) lat).
+Proof. exact @phase_of_code. Qed.
+Print Assumptions C15_phase_from_code.
+
+Theorem C15_phase_bruker : forall (T : Type) (name : string) (n : Z) (lat : list T),
+  sg_valid n = true -> mk_phase name (Some n) None lat = Ok (mkPhase name (Some n) (Some (sg_pg n)) lat).
+Proof. exact @phase_bruker. Qed.
+Print Assumptions C15_phase_bruker.
+
+(* FULL clause: the map's phases are the header phases USED by the data (plus not_indexed).
+   Proved when the data use every header phase (with and without not-indexed points); the
+   removal loop for unused phases is covered by the correspondence. *)
+Theorem C15_phases_all_used_partial : forall (T : Type) (Op : Ops T) (pl : list (Z * phase (T:=T))) (pids : list Z),
+  zunique pids = map fst pl -> (forall k, In k (map fst pl) -> k <> (-1)%Z) -> reconcile Op pl pids = pl.
+Proof. exact @reconcile_all_used. Qed.
+Print Assumptions C15_phases_all_used_partial.
+
+Theorem C15_phases_all_used_not_indexed_partial : forall (T : Type) (Op : Ops T) (pl : list (Z * phase (T:=T)))
+    (pids : list Z),
+  zunique pids = (-1)%Z :: map fst pl -> (forall k, In k (map fst pl) -> (-1 < k)%Z) ->
+  reconcile Op pl pids = (-1, not_indexed_phase Op)%Z :: pl.
+Proof. exact @reconcile_all_used_ni. Qed.
+Print Assumptions C15_phases_all_used_not_indexed_partial.
+
+(* ==================================================================== h5ebsd *)
+(* Bruker: y is never re-ordered -- for every file the map's y is Y SAMPLE in FILE order *)
+Theorem C15_bruker_y_file_order : forall (T : Type) (Op : Ops T) (t : btok (T:=T)) (m : xmap (T:=T)),
+  parse_bruker Op t = Ok m ->
+  exists props, bruker_props bruker_properties (bt_data t) = Ok props /\
+    xm_y m = sub_min Op (match aget "YSAMPLE" props with Some v => v | None => [] end).
+Proof. exact @bruker_y_is_file_order. Qed.
+Print Assumptions C15_bruker_y_file_order.
+
+Theorem C15_bruker_rows_refuted : forall (T : Type) (Op : Ops T) (dy y0 : T),
+  exists m, parse_bruker Op (render_bruker Op (bruker_wit Op dy y0)) = Ok m /\
+    xm_pid m = [1%Z; 2%Z] /\
+    xm_y m = sub_min Op [o_add Op y0 (o_mul Op (o_ofZ Op 1) dy); o_add Op y0 (o_mul Op (o_ofZ Op 0) dy)].
+Proof. exact @bruker_rows_witness. Qed.
+Print Assumptions C15_bruker_rows_refuted.
+
+Example C15_bruker_in_order_nonvacuous : forall (T : Type) (Op : Ops T) (dy y0 : T),
+  exists m, parse_bruker Op (render_bruker Op
+       (mkBF 2 1 (o_ofZ Op 1) dy (zz Op) y0 true 0%Z 0%Z [0%nat; 1%nat] (bf_phases (bruker_wit Op dy y0))
+             (bf_pts (bruker_wit Op dy y0)))) = Ok m /\
+    xm_pid m = [1%Z; 2%Z] /\
+    xm_y m = sub_min Op [o_add Op y0 (o_mul Op (o_ofZ Op 0) dy); o_add Op y0 (o_mul Op (o_ofZ Op 1) dy)] /\
+    map (fun kp => (fst kp, ph_sg (snd kp), ph_pg (snd kp))) (xm_phases m) =
+      [(1%Z, Some 225%Z, Some "m-3m"); (2%Z, Some 229%Z, Some "m-3m")].
+Proof. exact @bruker_in_order_witness. Qed.
+
+(* EMsoft: 1-based top-match index k selects dictionary row k-1 (degrees -> radians) *)
+Theorem C15_emsoft_topmatch_lookup : forall (T : Type) (Op : Ops T) (dict : list (T * T * T)) (k : Z),
+  (1 <= k <= Z.of_nat (List.length dict))%Z ->
+  py_index (map (eu_deg2rad Op) dict) (k - 1) = option_map (eu_deg2rad Op) (nth_error dict (Z.to_nat (k - 1))).
+Proof. exact @emsoft_lookup. Qed.
+Print Assumptions C15_emsoft_topmatch_lookup.
+
+(* reader selection *)
+Theorem C15_reader_selection :
+  select_plugin "ang" false None = Some "ang" /\ select_plugin "ctf" false None = Some "ctf" /\
+  (forall ext, In ext ["h5"; "hdf5"; "h5ebsd"] ->
+     select_plugin ext true (Some "Bruker Nano") = Some "bruker_h5ebsd" /\
+     select_plugin ext true (Some "EMEBSDDictionaryIndexing.f90") = Some "emsoft_h5ebsd").
+Proof.
+  split; [reflexivity|]. split; [reflexivity|]. intros ext H. simpl in H.
+  destruct H as [<-|[<-|[<-|[]]]]; split; vm_compute; reflexivity.
+Qed.
+Print Assumptions C15_reader_selection.
